@@ -233,7 +233,7 @@ func (c *c13Cfg) run(prefix []int, maxFaults int) *vrt.Exec {
 		if err := td.seatIn(hc.ids, hc.seatOf, hc.stacks); err != nil {
 			return "", "harness-seat", err.Error()
 		}
-		r := &runner{td: td, hc: &hc, wagerN: map[int]int{}, betweenDone: map[int]bool{}, lateDone: map[int]bool{}}
+		r := &runner{td: td, hc: &hc, wagerN: map[int]int{}, betweenDone: map[int]bool{}, lateDone: map[int]bool{}, retryDone: map[int]bool{}}
 		r.mons = []Monitor{&monC13{plan: &plan, twin: c.twin.steps}}
 		td.start()
 		res := r.run()
